@@ -260,6 +260,115 @@ func c05Scenario(c c05cfg) *Scenario {
 	return sc
 }
 
+// c05RemoveScenario: the removal of one service races with a deploy of an
+// unrelated one; afterwards (sequentially) a third service tries to take the
+// pair the racing deploy bound, and a fourth takes the pair the removal freed.
+func c05RemoveScenario(move bool) *Scenario {
+	sc := &Scenario{Name: fmt.Sprintf("C05 remove-vs-deploy move=%v", move), Horizon: 60 * time.Second}
+	O, X, Y := "o.example.com", "x.example.com", "y.example.com"
+	var rm, dep, intruder, freed, moved *CmdObs
+	var listed ServiceDescriptionMap
+	var pBound, pFreed, pMoved *ReqObs
+	sc.Run = func(w *World) {
+		rm, dep, intruder, freed, moved = nil, nil, nil, nil, nil
+		for _, n := range []string{"old:80", "r0:80", "r0b:80", "int:80", "fr:80", "mv:80"} {
+			w.AddTarget(n)
+		}
+		if r := w.Deploy(deployArgs("old", []string{"old:80"}, []string{O}, nil)); r.Err != nil {
+			w.Note("setup: %v", r.Err)
+			return
+		}
+		bound := X
+		if move {
+			if r := w.Deploy(deployArgs("svc0", []string{"r0:80"}, []string{X}, nil)); r.Err != nil {
+				w.Note("setup: %v", r.Err)
+				return
+			}
+			bound = Y
+		}
+		time.Sleep(100 * time.Millisecond)
+		var wg vsync.WaitGroup
+		w.S.SetWindow(true)
+		wg.Add(2)
+		vsched.GoTagged("cmd", func() {
+			defer wg.Done()
+			rm = w.Remove("old")
+		})
+		vsched.GoTagged("cmd", func() {
+			defer wg.Done()
+			dep = w.Deploy(deployArgs("svc0", []string{"r0b:80"}, []string{bound}, nil))
+		})
+		wg.Wait()
+		w.S.SetWindow(false)
+		time.Sleep(200 * time.Millisecond)
+		intruder = w.Deploy(deployArgs("intruder", []string{"int:80"}, []string{bound}, nil))
+		freed = w.Deploy(deployArgs("freed", []string{"fr:80"}, []string{O}, nil))
+		if move {
+			moved = w.Deploy(deployArgs("moved", []string{"mv:80"}, []string{X}, nil))
+		}
+		time.Sleep(200 * time.Millisecond)
+		listed, _ = w.List()
+		pBound = w.Do(ReqSpec{ID: "probe-bound", Host: bound, Path: "/x"})
+		pFreed = w.Do(ReqSpec{ID: "probe-freed", Host: O, Path: "/x"})
+		if move {
+			pMoved = w.Do(ReqSpec{ID: "probe-moved", Host: X, Path: "/x"})
+		}
+	}
+	sc.Check = func(w *World) []Violation {
+		var vs []Violation
+		for _, n := range w.Notes {
+			vs = append(vs, Violation{"C05", "setup", n})
+		}
+		if len(vs) > 0 || rm == nil || dep == nil || intruder == nil || freed == nil || !freed.Done {
+			return vs
+		}
+		if rm.Err != nil || dep.Err != nil {
+			vs = append(vs, Violation{"C05", "unexpected-error", fmt.Sprintf("remove: %v; deploy: %v (unrelated services)", rm.Err, dep.Err)})
+			return vs
+		}
+		if intruder.Err == nil {
+			vs = append(vs, Violation{"C05", "deploy-accepted-on-owned-pair", "a third service was deployed on the pair svc0 had just bound (svc0's deploy raced with the removal of an unrelated service)"})
+		} else if !errors.Is(intruder.Err, ErrorHostInUse) {
+			vs = append(vs, Violation{"C05", "unexpected-error", fmt.Sprintf("intruder: %v", intruder.Err)})
+		}
+		if freed.Err != nil {
+			vs = append(vs, Violation{"C05", "deploy-rejected-without-conflicting-owner", fmt.Sprintf("the pair of the removed service is still taken: %v", freed.Err)})
+		}
+		if moved != nil && moved.Err != nil {
+			vs = append(vs, Violation{"C05", "deploy-rejected-without-conflicting-owner", fmt.Sprintf("the pair svc0 moved away from is still taken: %v", moved.Err)})
+		}
+		if pBound.ServedBy() != "r0b:80" {
+			vs = append(vs, Violation{"C05", "owned-pair-not-routed-to-owner", fmt.Sprintf("svc0's pair: %s", pBound.Summary())})
+		}
+		if freed.Err == nil && pFreed.ServedBy() != "fr:80" {
+			vs = append(vs, Violation{"C05", "owned-pair-not-routed-to-owner", fmt.Sprintf("freed pair: %s", pFreed.Summary())})
+		}
+		if moved != nil && moved.Err == nil && pMoved.ServedBy() != "mv:80" {
+			vs = append(vs, Violation{"C05", "owned-pair-not-routed-to-owner", fmt.Sprintf("pair svc0 left: %s", pMoved.Summary())})
+		}
+		want := map[string]bool{"svc0": true}
+		if intruder.Err == nil {
+			want["intruder"] = true
+		}
+		if freed.Err == nil {
+			want["freed"] = true
+		}
+		if moved != nil && moved.Err == nil {
+			want["moved"] = true
+		}
+		var got []string
+		for n := range listed {
+			got = append(got, n)
+		}
+		sort.Strings(got)
+		if strings.Join(got, ",") != strings.Join(sortedKeys(want), ",") {
+			vs = append(vs, Violation{"C05", "list-does-not-match-successful-deploys", fmt.Sprintf("list=%v expected=%v", got, sortedKeys(want))})
+		}
+		return vs
+	}
+	return sc
+}
+
 func checkC05(t *testing.T, job *Job, res *Result) {
 	tier := job.Tier
 	if job.Replay != nil {
@@ -272,11 +381,12 @@ func checkC05(t *testing.T, job *Job, res *Result) {
 	for _, c := range c05Configs(tier) {
 		scs = append(scs, c05Scenario(c))
 	}
+	scs = append(scs, c05RemoveScenario(false), c05RemoveScenario(true))
 	b := Bounds{D: 2, S: 0}
 	if tier == "thorough" {
 		b = Bounds{D: 3, S: 0}
 	}
-	res.Rule = "engine S part: 2-3 concurrent deploys of different services whose bindings overlap (identical host, default host, one shared of several, shared path, wildcard, owned by a third service, redeploy moving onto the pair); every schedule within the bounds; oracle: successful deploys pairwise conflict-free, every rejection justified by a successful owner, every owned pair routes to its owner, losers leave nothing routed, list = winners"
+	res.Rule = "engine S part: 2-3 concurrent deploys of different services whose bindings overlap (identical host, default host, one shared of several, shared path, wildcard, owned by a third service, redeploy moving onto the pair); every schedule within the bounds; oracle: successful deploys pairwise conflict-free, every rejection justified by a successful owner, every owned pair routes to its owner, losers leave nothing routed, list = winners; plus the removal of a service racing with the deploy (or host-moving redeploy) of an unrelated one, followed sequentially by deploys that try to take the pair just bound (must be refused) and the pairs just freed (must succeed)"
 	if job.Replay == nil || job.Replay.Engine == "S" {
 		runS(t, job, res, "C05", scs, b, 0)
 	}
